@@ -362,12 +362,13 @@ func (c c01Cfg) String() string {
 
 // c01Case is one unit of work (one File, one or a few calls).
 type c01Case struct {
-	Op   string `json:"op"`   // readat | read | writeto | writeat | write | readfrom | rfwc
-	L    int    `json:"L"`    // length of the served file before the call
-	Off  int    `json:"off"`  // offset (ReadAt/WriteAt/Seek before the call)
-	Len  int    `json:"len"`  // buffer/data length; readat: -1 = every length 0..L+2
-	Kind string `json:"kind"` // source kind (readfrom)
-	C    int    `json:"c"`    // concurrency argument (rfwc)
+	Op   string `json:"op"`            // readat | read | writeto | writeat | write | readfrom | rfwc
+	L    int    `json:"L"`             // length of the served file before the call
+	Off  int    `json:"off"`           // offset (ReadAt/WriteAt/Seek before the call)
+	Len  int    `json:"len"`           // buffer/data length; readat: -1 = every length 0..L+2
+	Kind string `json:"kind"`          // source kind (readfrom)
+	C    int    `json:"c"`             // concurrency argument (rfwc)
+	Pre  string `json:"pre,omitempty"` // a call on the same File before the transfer: chmod | truncate (to the current length) | stat
 }
 
 type c01Env struct {
@@ -488,6 +489,19 @@ func c01Run(e *c01Env, cs c01Case, out func(fp string)) (calls int64, bad *c01Ba
 	}
 	defer f.Close()
 	fail := func(what, format string, a ...any) *c01Bad { return &c01Bad{what, fmt.Sprintf(format, a...)} }
+	// a handle that has been used for something else first (nothing that changes the content) transfers like a fresh one
+	var preErr error
+	switch cs.Pre {
+	case "chmod":
+		preErr = f.Chmod(0o644)
+	case "truncate":
+		preErr = f.Truncate(int64(cs.L))
+	case "stat":
+		_, preErr = f.Stat()
+	}
+	if preErr != nil {
+		return 1, fail("err", "File.%s before the transfer failed: %v", cs.Pre, preErr)
+	}
 	rel := func(n, want int) string {
 		switch {
 		case n == 0:
@@ -785,6 +799,21 @@ func c01SmallCases(P, K int, visit func(c01Case)) {
 	}
 }
 
+// c01PreCases: transfers through a handle on which another method was called first.
+func c01PreCases(P, K int, visit func(c01Case)) {
+	L := 2*P + 1
+	for _, pre := range []string{"chmod", "truncate", "stat"} {
+		visit(c01Case{Op: "readat", L: L, Off: 0, Len: -1, Pre: pre})
+		// (no Read/WriteTo loops here: they end at EOF only, and a free-running case has no way to decide "never returns")
+		for _, ln := range []int{1, P, L + 1} {
+			visit(c01Case{Op: "writeat", L: P, Off: 1, Len: ln, Pre: pre})
+			visit(c01Case{Op: "write", L: P, Off: 0, Len: ln, Pre: pre})
+			visit(c01Case{Op: "readfrom", L: P, Off: 0, Len: ln, Kind: c01SrcKinds[0], Pre: pre})
+			visit(c01Case{Op: "rfwc", L: 0, Off: 0, Len: ln, C: K, Pre: pre})
+		}
+	}
+}
+
 // c01LargeCases: boundary lengths around multiples of a large packet size.
 func c01LargeCases(P, K int, lite bool, visit func(c01Case)) {
 	var Ls []int
@@ -971,6 +1000,7 @@ func c01Part(c *reg.Ctx) *reg.Result {
 			c01LargeCases(cfg.P, cfg.K, lite, visit)
 		} else {
 			c01SmallCases(cfg.P, cfg.K, visit)
+			c01PreCases(cfg.P, cfg.K, visit)
 		}
 		if e != nil {
 			e.stop()
